@@ -313,7 +313,7 @@ func (a *analysis) siteCertified(s *site) bool {
 
 // selfCheck replays the local checker of NilCheck.v on the certificate; returns the failures
 // (sites in allowed are accepted)
-func (a *analysis) selfCheck(allowed map[int]bool) []string {
+func (a *analysis) selfCheck(allowed map[int]bool, c03 bool) []string {
 	var bad []string
 	for _, fi := range a.funcs {
 		g := fi.g
@@ -339,7 +339,16 @@ func (a *analysis) selfCheck(allowed map[int]bool) []string {
 					bad = append(bad, fmt.Sprintf("%s node %d: use %s", fi.name, n.id, n.site.key))
 				}
 			case kStore:
-				if !(n.cl.has(n.x) && (!n.strict || n.nn.has(n.x))) && !allowed[n.site.id] {
+				okStore := true
+				switch n.mode {
+				case storeStrict:
+					okStore = n.nn.has(n.x) && n.cl.has(n.x)
+				case storeClean:
+					okStore = n.cl.has(n.x)
+				case storeDirty:
+					okStore = !c03 || n.cl.has(n.x)
+				}
+				if !okStore && !allowed[n.site.id] {
 					bad = append(bad, fmt.Sprintf("%s node %d: store %s", fi.name, n.id, n.site.key))
 				}
 			case kCall:
